@@ -244,7 +244,8 @@ func genScalar(t *rapid.T, l string, kinds []string) TV {
 			v.Sec = rapid.Int64Range(-1<<40, 1<<40).Draw(t, l+"_sec")
 			v.Nsec = rapid.Int64Range(0, 999999999).Draw(t, l+"_nsec")
 		}
-		v.Off = []int{0, 3600, -5 * 3600, 5*3600 + 1800, 14 * 3600, -12 * 3600, 1}[rapid.IntRange(0, 6).Draw(t, l+"_off")]
+		// zone offsets incl. the odd ones of local mean time (a minute or two off UTC)
+		v.Off = []int{0, 3600, -5 * 3600, 5*3600 + 1800, 14 * 3600, -12 * 3600, 1, -59, -60, -61, -90, -119, -120, 60}[rapid.IntRange(0, 13).Draw(t, l+"_off")]
 	}
 	return v
 }
@@ -489,7 +490,12 @@ func writeField(b *boltz.TypedBucket, name string, v TV, checker boltz.FieldChec
 	case "b":
 		b.SetBool(name, v.Bo, checker)
 	case "t":
-		b.SetTime(name, v.time(), checker)
+		if v.Nsec%2 == 1 {
+			tm := v.time()
+			b.SetTimeP(name, &tm, checker) // the pointer variant of the setter
+		} else {
+			b.SetTime(name, v.time(), checker)
+		}
 	case "nil":
 		if b.ProceedWithSet(name, checker) {
 			b.SetNil(name)
@@ -672,6 +678,19 @@ func runC13(c c13Case) kit.Result {
 					break
 				}
 			}
+			// a copy of the bucket taken inside the writing transaction holds the same values
+			if sameTx == "" {
+				dst := boltz.GetOrCreatePath(tx, "root", "copy-in-tx")
+				if err := dst.Copy(b, func([]string) bool { return true }); err != nil {
+					return fmt.Errorf("TypedBucket.Copy inside the writing transaction: %v", err)
+				}
+				for _, f := range c.Fields {
+					if d := checkField(dst, f.Name, f.V); d != "" {
+						sameTx = "copy taken inside the writing transaction: " + d
+						break
+					}
+				}
+			}
 			return b.GetError()
 		})
 		if err != nil {
@@ -683,11 +702,13 @@ func runC13(c c13Case) kit.Result {
 			return res
 		}
 		_ = db.DB.View(func(tx *bbolt.Tx) error {
-			b := boltz.Path(tx, "root", "ent")
-			for _, f := range c.Fields {
-				if d := checkField(b, f.Name, f.V); d != "" {
-					res.Err = fmt.Errorf("%s", d)
-					return nil
+			for _, where := range []string{"ent", "copy-in-tx"} {
+				b := boltz.Path(tx, "root", where)
+				for _, f := range c.Fields {
+					if d := checkField(b, f.Name, f.V); d != "" {
+						res.Err = fmt.Errorf("bucket %s: %s", where, d)
+						return nil
+					}
 				}
 			}
 			return nil
